@@ -247,7 +247,10 @@ class BaseTemplate:
             cls, exc, tb = sys.exc_info()
             try:
                 errors = rcontext.get('__error__')
-                if errors:
+                # only exceptions of the Exception hierarchy are re-typed
+                # (KeyboardInterrupt, SystemExit, ... must stay what
+                # they are)
+                if errors and isinstance(exc, Exception):
                     formatter = exc.__str__
                     if isinstance(formatter, ExceptionFormatter):
                         if errors is not formatter._errors:
